@@ -306,6 +306,39 @@ func checkAuthenticator(c *Ctx, rule, fname string, fn *ssa.Function) {
 			}
 			c.R.Check(cmp, rule, ir.ShortName(vf), "verifier passes the challenge to a comparison/MAC", c.P.FuncPos(vf), "challenge parameter does not flow into any call")
 		}
+		// the issued challenge is only read: it (or a re-slice of it) is never handed to a callee as an output buffer,
+		// which would overwrite it with attacker-chosen bytes before the comparison
+		if idx >= 0 && idx < len(vf.Params) {
+			for _, in := range ir.Instrs(vf) {
+				call, ok := in.(*ssa.Call)
+				if !ok {
+					continue
+				}
+				callee := ir.CalleeName(call.Call.StaticCallee())
+				for i, a := range call.Call.Args {
+					root := a
+					for {
+						if sl, ok := root.(*ssa.Slice); ok {
+							root = sl.X
+							continue
+						}
+						break
+					}
+					if root != ssa.Value(vf.Params[idx]) {
+						continue
+					}
+					isCmp := callee == "bytes.Equal" || callee == "crypto/hmac.Equal" || callee == "crypto/subtle.ConstantTimeCompare"
+					if _, resliced := a.(*ssa.Slice); resliced && !isCmp {
+						c.R.Bad(rule, ir.ShortName(vf), fmt.Sprintf("challenge is not handed out as a buffer (argument %d of %s)", i, callee), c.pos(in),
+							"a re-slice of the issued challenge is passed to "+callee+": the callee can overwrite the challenge before it is compared (any earlier signed message then verifies)")
+					}
+				}
+				if callee == "golang.org/x/crypto/nacl/sign.Open" && len(call.Call.Args) > 0 {
+					c.R.Check(ir.Desc(call.Call.Args[0]) == "nil", rule, ir.ShortName(vf), "sign.Open writes the opened message into a fresh buffer", c.pos(in),
+						"the output buffer of sign.Open is "+ir.Desc(call.Call.Args[0])+", not nil: the opened (attacker-chosen) message may overwrite data it is later compared with")
+				}
+			}
+		}
 	}
 }
 
